@@ -192,6 +192,25 @@ def _hier_delta(a: Any, b: Any) -> Any:
     return sa ^ sb
 
 
+def kf_alias_chain_then_move(w: Dict[str, Any]) -> bool:
+    """Known finding: a base named through two alias hops once its class has been moved by a re-export (`K = C` in the defining
+    module, or an import handed on by a third module): find_object follows one hop (repository tests pin it, see C07
+    reexporter-renamed-by-its-package), so the base is resolved or not depending on whether the re-exporter is analysed before the
+    user.  Matches only the two hand-written projects of that shape, and only when what differs is the class d.D having its base
+    (site a.py:1) or none."""
+    if w.get("handwritten") not in ("alias-then-move", "from-import-through-a-module-then-move") or w.get("invariant") != "ScheduleIndependent":
+        return False
+    diff = w.get("diff") or {}
+    if set(diff) != {"d.D"}:
+        return False
+    a, b = diff["d.D"]
+    if a is None or b is None:
+        return False
+    bases = sorted([json.dumps(a.get("bases")), json.dumps(b.get("bases"))])
+    same_otherwise = all(a.get(k) == b.get(k) for k in ("cls", "kind", "doc"))
+    return same_otherwise and bases == sorted([json.dumps([None]), json.dumps([["a.py", 1, "C"]])])
+
+
 def kf_star_of_half_analysed_module(w: Dict[str, Any]) -> bool:
     """Known finding: `from M import *` read while M is in the middle of its own analysis (M imports, directly or not, the module
     that star-imports it BEFORE defining some of its names) copies the names bound so far only - as the interpreter does, for which
@@ -230,6 +249,7 @@ def run(ctx: Ctx) -> int:
     rng = random.Random(ctx.seed)
     ctx.register_matcher("base-reexported-by-several-modules", kf_base_is_multi_reexported)
     ctx.register_matcher("star-import-of-a-half-analysed-module", kf_star_of_half_analysed_module)
+    ctx.register_matcher("alias-chain-then-move", kf_alias_chain_then_move)
     discover_phase(ctx, rng)
     projs = families.all_projects(ctx.quick)
     # bases that can only be resolved once an import cycle is closed and whose name is rebound further down (hierarchy only)
